@@ -947,4 +947,341 @@ theorem asFound_runs_as_long_as_scripted (n k : Nat) (m : MSt) (h : Quiet m) :
     refine ⟨by omega, ?_⟩
     rw [this.2, hs.2.2]; omega
 
+
+/-! ## the failure limit in the stateful phase: at most `max_failures` scenarios are reported as failed -/
+
+theorem failedScenarios_append (a b : List SEv) : failedScenarios (a ++ b) = failedScenarios a + failedScenarios b := by
+  induction a with
+  | nil => simp [failedScenarios]
+  | cons e r ih =>
+    cases e with
+    | scenFinished i st => cases st <;> simp [failedScenarios, ih] <;> omega
+    | _ => simp [failedScenarios, ih]
+
+/-- the limit flag is set as soon as the counter reaches the limit -/
+def K (mx : Nat) (c : Ctl) : Prop := c.maxFailures = some mx ∧ (c.limit = false → c.failures < mx)
+
+theorem countFailure_K (mx : Nat) (c : Ctl) (h : K mx c) : K mx c.countFailure ∧ c.countFailure.failures = c.failures + 1 := by
+  obtain ⟨h1, h2⟩ := h
+  have e : c.countFailure = { c with failures := c.failures + 1, limit := c.limit || decide (c.failures + 1 ≥ mx) } := by
+    unfold Ctl.countFailure; simp [h1]
+  rw [e]
+  refine ⟨⟨h1, ?_⟩, rfl⟩
+  intro hl
+  simp only [Bool.or_eq_false_iff, decide_eq_false_iff_not] at hl
+  show c.failures + 1 < mx
+  omega
+
+/-- `on_failure`: the counter moves exactly with the collected set -/
+theorem onFailure_count (mx sid : Nat) (s : MSt × List FKey) (f : FKey) (h : K mx s.1.ctl) :
+    K mx (onFailure sid s f).1.ctl ∧
+    (onFailure sid s f).1.ctl.failures + s.2.length = s.1.ctl.failures + (onFailure sid s f).2.length := by
+  unfold onFailure
+  split
+  · exact ⟨h, rfl⟩
+  · have := countFailure_K mx s.1.ctl h
+    refine ⟨this.1, ?_⟩
+    simp only [List.length_append, List.length_singleton]
+    rw [this.2]; omega
+
+theorem foldl_onFailure_count (mx sid : Nat) (fs : List FKey) (s : MSt × List FKey) (h : K mx s.1.ctl) :
+    K mx (fs.foldl (onFailure sid) s).1.ctl ∧
+    (fs.foldl (onFailure sid) s).1.ctl.failures + s.2.length = s.1.ctl.failures + (fs.foldl (onFailure sid) s).2.length := by
+  induction fs generalizing s with
+  | nil => exact ⟨h, rfl⟩
+  | cons f r ih =>
+    simp only [List.foldl_cons]
+    have h1 := onFailure_count mx sid s f h
+    have h2 := ih (onFailure sid s f) h1.1
+    exact ⟨h2.1, by omega⟩
+
+theorem runChecks_count (mx sid : Nat) (cs : List CheckOut) (s : MSt × List FKey) (h : K mx s.1.ctl) :
+    K mx (runChecks sid s cs).1.1.ctl ∧
+    (runChecks sid s cs).1.1.ctl.failures + s.2.length = s.1.ctl.failures + (runChecks sid s cs).1.2.length := by
+  induction cs generalizing s with
+  | nil => exact ⟨h, rfl⟩
+  | cons c r ih =>
+    cases c with
+    | pass => simp only [runChecks]; exact ih s h
+    | crash => exact ⟨h, rfl⟩
+    | fail fs =>
+      simp only [runChecks]
+      have h1 := foldl_onFailure_count mx sid fs s h
+      have h2 := ih _ h1.1
+      exact ⟨h2.1, by omega⟩
+
+/-- `validate_response`: the control invariant is kept, the counter never goes down, and a raised group means at least
+    one failure was counted -/
+theorem validate_count (mx sid : Nat) (m : MSt) (cs : List CheckOut) (h : K mx m.ctl) :
+    K mx (validate sid m cs).1.ctl ∧ m.ctl.failures ≤ (validate sid m cs).1.ctl.failures ∧
+    (∀ fs, (validate sid m cs).2 = .group fs → m.ctl.failures + 1 ≤ (validate sid m cs).1.ctl.failures) := by
+  have hc := runChecks_count mx sid cs (m, []) h
+  simp only [List.length_nil, Nat.add_zero] at hc
+  have hle : m.ctl.failures ≤ (runChecks sid (m, []) cs).1.1.ctl.failures := by omega
+  simp only [validate]
+  split
+  · exact ⟨hc.1, hle, by simp⟩
+  · split
+    · exact ⟨hc.1, hle, by simp⟩
+    · rename_i hne
+      refine ⟨hc.1, hle, fun fs _ => ?_⟩
+      have : (runChecks sid (m, []) cs).1.2.length ≠ 0 := by
+        intro h0
+        have : (runChecks sid (m, []) cs).1.2 = [] := List.eq_nil_of_length_eq_zero h0
+        simp [this] at hne
+      show m.ctl.failures + 1 ≤ (runChecks sid (m, []) cs).1.1.ctl.failures
+      omega
+
+@[simp] theorem store_ctl (m : MSt) (c : CaseKey) (o : Cached) : (store m c o).ctl = m.ctl := by
+  unfold store; split <;> rfl
+@[simp] theorem store_stepStatus (m : MSt) (c : CaseKey) (o : Cached) : (store m c o).stepStatus = m.stepStatus := by
+  unfold store; split <;> rfl
+
+theorem requestStop_K (mx : Nat) (m : MSt) (b : Bool) (h : K mx m.ctl) :
+    K mx (requestStop m b).ctl ∧ (requestStop m b).ctl.failures = m.ctl.failures ∧ (requestStop m b).stepStatus = m.stepStatus := by
+  unfold requestStop; split
+  · exact ⟨⟨h.1, h.2⟩, rfl, rfl⟩
+  · exact ⟨h, rfl, rfl⟩
+
+/-- one step: invariant kept, counter monotone; if the status becomes FAILURE in this step then the limit had not been
+    reached before it and the step counted at least one failure -/
+theorem step_count (mx : Nat) (m : MSt) (s : Step) (h : K mx m.ctl) :
+    K mx (step m s).1.ctl ∧ m.ctl.failures ≤ (step m s).1.ctl.failures ∧
+    ((step m s).1.stepStatus = some .failure → m.stepStatus ≠ some .failure →
+      m.ctl.failures < mx ∧ m.ctl.failures + 1 ≤ (step m s).1.ctl.failures) := by
+  obtain ⟨hk, hf, hs⟩ := requestStop_K mx m s.stopBefore h
+  have hle : m.ctl.failures ≤ (requestStop m s.stopBefore).ctl.failures := by omega
+  have hkeep : (requestStop m s.stopBefore).stepStatus = some .failure → m.stepStatus ≠ some .failure →
+      m.ctl.failures < mx ∧ m.ctl.failures + 1 ≤ (requestStop m s.stopBefore).ctl.failures :=
+    fun h1 h2 => absurd (hs ▸ h1) h2
+  unfold step
+  simp only
+  split
+  · exact ⟨hk, hle, hkeep⟩
+  · rename_i hgo
+    have hlim : (requestStop m s.stopBefore).ctl.limit = false := by
+      simp only [Ctl.hasToStop, Bool.or_eq_true, not_or, Bool.not_eq_true] at hgo; exact hgo.2
+    have hlt : m.ctl.failures < mx := by rw [← hf]; exact hk.2 hlim
+    split
+    · exact ⟨hk, hle, hkeep⟩
+    · refine ⟨?_, ?_, ?_⟩
+      · show K mx (store (requestStop m s.stopBefore) s.case .failure).ctl; rw [store_ctl]; exact hk
+      · show m.ctl.failures ≤ (store (requestStop m s.stopBefore) s.case .failure).ctl.failures; rw [store_ctl]; exact hle
+      · intro h1; simp at h1
+    · refine ⟨?_, ?_, ?_⟩
+      · show K mx (store (requestStop m s.stopBefore) s.case .exception).ctl; rw [store_ctl]; exact hk
+      · show m.ctl.failures ≤ (store (requestStop m s.stopBefore) s.case .exception).ctl.failures; rw [store_ctl]; exact hle
+      · intro h1; simp [errored] at h1
+    · refine ⟨?_, ?_, ?_⟩
+      · show K mx (store (requestStop m s.stopBefore) s.case .baseExc).ctl; rw [store_ctl]; exact hk
+      · show m.ctl.failures ≤ (store (requestStop m s.stopBefore) s.case .baseExc).ctl.failures; rw [store_ctl]; exact hle
+      · intro h1 h2
+        have : (store (requestStop m s.stopBefore) s.case .baseExc).stepStatus = some .failure := h1
+        rw [store_stepStatus] at this; exact absurd (hs ▸ this) h2
+    · split
+      · refine ⟨?_, ?_, ?_⟩
+        · show K mx (store (attempt (requestStop m s.stopBefore)) s.case .exception).ctl; rw [store_ctl]; exact hk
+        · show m.ctl.failures ≤ (store (attempt (requestStop m s.stopBefore)) s.case .exception).ctl.failures; rw [store_ctl]; exact hle
+        · intro h1; simp [errored] at h1
+      · refine ⟨hk, hle, ?_⟩
+        intro h1; simp at h1
+      · refine ⟨?_, ?_, ?_⟩
+        · show K mx (store (attempt (requestStop m s.stopBefore)) s.case .baseExc).ctl; rw [store_ctl]; exact hk
+        · show m.ctl.failures ≤ (store (attempt (requestStop m s.stopBefore)) s.case .baseExc).ctl.failures; rw [store_ctl]; exact hle
+        · intro h1 h2
+          have : (store (attempt (requestStop m s.stopBefore)) s.case .baseExc).stepStatus = some .failure := h1
+          rw [store_stepStatus] at this; exact absurd (hs ▸ this) h2
+      · rename_i cs _
+        have hv := validate_count mx ((requestStop m s.stopBefore).current.getD 0) (attempt (requestStop m s.stopBefore)) cs hk
+        have hv2 : m.ctl.failures ≤ (validate ((requestStop m s.stopBefore).current.getD 0) (attempt (requestStop m s.stopBefore)) cs).1.ctl.failures :=
+          Nat.le_trans hle hv.2.1
+        split
+        · refine ⟨?_, ?_, ?_⟩
+          · show K mx (store _ s.case .none_).ctl; rw [store_ctl]; exact hv.1
+          · show m.ctl.failures ≤ (store _ s.case .none_).ctl.failures; rw [store_ctl]; exact hv2
+          · intro h1; simp at h1
+        · rename_i fs hg
+          refine ⟨?_, ?_, ?_⟩
+          · show K mx (store _ s.case .failure).ctl; rw [store_ctl]; exact hv.1
+          · show m.ctl.failures ≤ (store _ s.case .failure).ctl.failures; rw [store_ctl]; exact hv2
+          · intro _ _
+            refine ⟨hlt, ?_⟩
+            show m.ctl.failures + 1 ≤ (store _ s.case .failure).ctl.failures
+            rw [store_ctl]
+            have := hv.2.2 fs hg
+            have e : (attempt (requestStop m s.stopBefore)).ctl.failures = m.ctl.failures := hf
+            omega
+        · refine ⟨?_, ?_, ?_⟩
+          · show K mx (store _ s.case .exception).ctl; rw [store_ctl]; exact hv.1
+          · show m.ctl.failures ≤ (store _ s.case .exception).ctl.failures; rw [store_ctl]; exact hv2
+          · intro h1; simp [errored] at h1
+
+theorem step_status_none_or (m : MSt) (s : Step) :
+    ((step m s).2 = .returned → (step m s).1.stepStatus = some .success) ∧
+    ((step m s).2 = .returnedNone → (step m s).1.stepStatus = m.stepStatus) := by
+  have hs : (requestStop m s.stopBefore).stepStatus = m.stepStatus := by unfold requestStop; split <;> rfl
+  unfold step
+  simp only
+  split
+  · simp
+  · split
+    · simp [hs]
+    · simp
+    · simp [errored]
+    · simp
+    · split
+      · simp [errored]
+      · simp
+      · simp
+      · split <;> simp_all [errored]
+
+theorem runSteps_count (mx : Nat) (m : MSt) (steps : List Step) (h : K mx m.ctl) (hst : m.stepStatus ≠ some .failure) :
+    K mx (runSteps m steps).1.ctl ∧ m.ctl.failures ≤ (runSteps m steps).1.ctl.failures ∧
+    ((runSteps m steps).1.stepStatus = some .failure →
+      ∃ f0, m.ctl.failures ≤ f0 ∧ f0 < mx ∧ f0 + 1 ≤ (runSteps m steps).1.ctl.failures) := by
+  induction steps generalizing m with
+  | nil => exact ⟨h, Nat.le_refl _, fun hf => absurd hf hst⟩
+  | cons s r ih =>
+    have hc := step_count mx m s h
+    have hn := step_status_none_or m s
+    simp only [runSteps]
+    split
+    · rename_i m' heq
+      rw [heq] at hc hn
+      dsimp only at hc hn
+      have h2 := ih m' hc.1 (by rw [hn.1 rfl]; simp)
+      exact ⟨h2.1, by omega, fun hf => by obtain ⟨f0, a, b, c⟩ := h2.2.2 hf; exact ⟨f0, by omega, b, c⟩⟩
+    · rename_i m' heq
+      rw [heq] at hc hn
+      dsimp only at hc hn
+      have h2 := ih m' hc.1 (by rw [hn.2 rfl]; exact hst)
+      exact ⟨h2.1, by omega, fun hf => by obtain ⟨f0, a, b, c⟩ := h2.2.2 hf; exact ⟨f0, by omega, b, c⟩⟩
+    all_goals
+      rename_i m' heq
+      rw [heq] at hc
+      dsimp only at hc
+      exact ⟨hc.1, hc.2.1, fun hf => ⟨m.ctl.failures, Nat.le_refl _, (hc.2.2 hf hst).1, (hc.2.2 hf hst).2⟩⟩
+
+/-- between scenarios: the status is cleared, and the failed scenarios reported so far are covered by the counter and by
+    the limit -/
+def Capped (mx : Nat) (m : MSt) : Prop :=
+  K mx m.ctl ∧ m.stepStatus = none ∧ failedScenarios m.out ≤ m.ctl.failures ∧ failedScenarios m.out ≤ mx
+
+theorem runScenario_capped (mx : Nat) (m : MSt) (sc : Scenario) (ht : sc.teardownFails = false) (h : Capped mx m) :
+    Capped mx (runScenario m sc).1 := by
+  obtain ⟨hk, hst, hf1, hf2⟩ := h
+  simp only [runScenario, setup, ht, Bool.false_eq_true, if_false]
+  split
+  · rename_i heq
+    split at heq
+    · simp only [Prod.mk.injEq] at heq; obtain ⟨rfl, _⟩ := heq; exact ⟨hk, hst, hf1, hf2⟩
+    · simp at heq
+  · rename_i m1 heq
+    split at heq
+    · simp at heq
+    · simp only [Prod.mk.injEq, and_true] at heq
+      subst heq
+      generalize hm1 : ({ m with current := some m.nextId, nextId := m.nextId + 1, out := m.out ++ [SEv.scenStarted m.nextId] } : MSt) = m1
+      have hk1 : K mx m1.ctl := by subst hm1; exact hk
+      have hs1 : m1.stepStatus ≠ some .failure := by subst hm1; simp [hst]
+      have hfr := runSteps_frame m1 sc.steps
+      simp only [frame, Frame.mk.injEq] at hfr
+      have hc := runSteps_count mx m1 sc.steps hk1 hs1
+      have hout : m1.out = m.out ++ [SEv.scenStarted m.nextId] := by subst hm1; rfl
+      have hfail : m1.ctl.failures = m.ctl.failures := by subst hm1; rfl
+      refine ⟨by simpa [teardown] using hc.1, by simp [teardown], ?_, ?_⟩
+      all_goals
+        simp only [teardown, hfr.1, hout, failedScenarios_append]
+        cases hss : (runSteps m1 sc.steps).1.stepStatus with
+        | none => simp [failedScenarios]; omega
+        | some st =>
+          cases st with
+          | failure =>
+            obtain ⟨f0, a, b, c⟩ := hc.2.2 hss
+            simp [failedScenarios]; omega
+          | _ => simp [failedScenarios]; omega
+
+theorem runMachine_capped (mx : Nat) (m : MSt) (scens : List Scenario) (ht : ∀ sc, sc ∈ scens → sc.teardownFails = false)
+    (h : Capped mx m) : Capped mx (runMachine m scens).1 := by
+  induction scens generalizing m with
+  | nil => exact h
+  | cons sc rest ih =>
+    have h1 := runScenario_capped mx m sc (ht sc (by simp)) h
+    simp only [runMachine]
+    split
+    · exact h1
+    · exact ih _ (fun x hx => ht x (by simp [hx])) h1
+
+theorem handle_ctl (v : Variant) (m : MSt) (ki : Bool) (hyp : HypEnd) :
+    (handle v m ki hyp).2.2.1.ctl.maxFailures = m.ctl.maxFailures ∧ (handle v m ki hyp).2.2.1.ctl.failures = m.ctl.failures ∧
+    (handle v m ki hyp).2.2.1.ctl.limit = m.ctl.limit := by
+  unfold handle
+  split
+  · exact ⟨rfl, rfl, rfl⟩
+  · split
+    · exact ⟨rfl, rfl, rfl⟩
+    · exact ⟨rfl, rfl, rfl⟩
+    · split <;> exact ⟨rfl, rfl, rfl⟩
+    · split
+      · exact ⟨rfl, rfl, rfl⟩
+      · split
+        · exact ⟨rfl, rfl, rfl⟩
+        · split <;> exact ⟨rfl, rfl, rfl⟩
+    · split <;> exact ⟨rfl, rfl, rfl⟩
+    · exact ⟨rfl, rfl, rfl⟩
+
+theorem handle_events_failed (v : Variant) (m : MSt) (ki : Bool) (hyp : HypEnd) :
+    failedScenarios (handle v m ki hyp).2.1 = 0 := by
+  rcases handle_events v m ki hyp with h | h | h <;> rw [h] <;> simp [failedScenarios]
+
+theorem suiteStep_capped (mx : Nat) (v : Variant) (k : Nat) (m0 : MSt) (r : Run)
+    (ht : ∀ sc, sc ∈ r.scens → sc.teardownFails = false) (h : Capped mx m0) : Capped mx (suiteStep v k m0 r).1 := by
+  obtain ⟨hk0, hst0, hf1, hf2⟩ := h
+  obtain ⟨hk, hf, hs⟩ := requestStop_K mx m0 r.stopBeforeSuite hk0
+  have hout : (requestStop m0 r.stopBeforeSuite).out = m0.out := by
+    have := requestStop_frame m0 r.stopBeforeSuite; simp only [frame, Frame.mk.injEq] at this; exact this.1
+  have hm : Capped mx (put (requestStop m0 r.stopBeforeSuite) [SEv.suiteStarted k]) :=
+    ⟨by simpa [put] using hk, by simp [put, hs, hst0],
+     by simp [put, hout, failedScenarios_append, failedScenarios, hf]; exact hf1,
+     by simp [put, hout, failedScenarios_append, failedScenarios]; exact hf2⟩
+  simp only [suiteStep]
+  generalize put (requestStop m0 r.stopBeforeSuite) [SEv.suiteStarted k] = mm at hm ⊢
+  split
+  · obtain ⟨a, b, c, d⟩ := hm
+    exact ⟨by simpa [put] using a, by simpa [put] using b,
+           by simp only [put, failedScenarios_append]; simp [failedScenarios]; exact c,
+           by simp only [put, failedScenarios_append]; simp [failedScenarios]; exact d⟩
+  · have hrm := runMachine_capped mx mm r.scens ht hm
+    generalize runMachine mm r.scens = rm at hrm ⊢
+    obtain ⟨a, b, c, d⟩ := hrm
+    split
+    · exact ⟨by simpa [finish] using a, by simp [finish],
+             by simp only [finish, failedScenarios_append]; simp [failedScenarios]; exact c,
+             by simp only [finish, failedScenarios_append]; simp [failedScenarios]; exact d⟩
+    · have hh := handle_ctl v rm.1 (List.any rm.2 fun x => x == ScenEnd.ki) r.hyp
+      have ho := handle_out v rm.1 (List.any rm.2 fun x => x == ScenEnd.ki) r.hyp
+      have he := handle_events_failed v rm.1 (List.any rm.2 fun x => x == ScenEnd.ki) r.hyp
+      generalize handle v rm.1 (List.any rm.2 fun x => x == ScenEnd.ki) r.hyp = hd at hh ho he ⊢
+      refine ⟨⟨?_, fun hl => ?_⟩, by simp [finish], ?_, ?_⟩
+      · show hd.2.2.1.ctl.maxFailures = some mx
+        rw [hh.1]; exact a.1
+      · have hl' : hd.2.2.1.ctl.limit = false := hl
+        show hd.2.2.1.ctl.failures < mx
+        rw [hh.2.1]; rw [hh.2.2] at hl'; exact a.2 hl'
+      · show failedScenarios ((hd.2.2.1.out ++ hd.2.1) ++ [SEv.suiteFinished k hd.1]) ≤ hd.2.2.1.ctl.failures
+        rw [failedScenarios_append, failedScenarios_append, ho.1, he, hh.2.1]; simp [failedScenarios]; exact c
+      · show failedScenarios ((hd.2.2.1.out ++ hd.2.1) ++ [SEv.suiteFinished k hd.1]) ≤ mx
+        rw [failedScenarios_append, failedScenarios_append, ho.1, he]; simp [failedScenarios]; exact d
+
+theorem thread_capped (mx : Nat) (v : Variant) (k : Nat) (m : MSt) (runs : List Run) (ht : NoTeardownFault runs)
+    (h : Capped mx m) : Capped mx (thread v k m runs) := by
+  induction runs generalizing k m with
+  | nil => exact h
+  | cons r rest ih =>
+    have h1 := suiteStep_capped mx v k m r (ht r (by simp)) h
+    simp only [thread]
+    split
+    · exact ih (k + 1) _ (fun r' hr' => ht r' (by simp [hr'])) h1
+    · exact h1
+
 end SV.Proofs.SM
